@@ -16,7 +16,7 @@ def sh(cmd, timeout=None, **kw):
     except subprocess.TimeoutExpired as e:
         class R: returncode = 124; stdout = ''; stderr = 'timeout'
         return R()
-sh(f'mkdir -p {ROOT}/base && cd /repo && git archive HEAD | tar -x -C {ROOT}/base')
+sh(f'mkdir -p {ROOT}/base && cd /repo && git archive {os.environ.get("MUTBASE", "HEAD")} | tar -x -C {ROOT}/base')
 def keys_of(repo):
     out = sh(f'./bin/colvet -repo {repo} -property all -keys 2>&1').stdout
     per, cur = {}, []
